@@ -6,6 +6,7 @@ def run(ctx):
     satlayer.rule_header(ctx)
     satlayer.rule_clause_store(ctx)
     satlayer.rule_assumptions_transient(ctx)  # the store and its counter are left alone by a solve call: the next header stays exact
+    satlayer.rule_variable_count_monotone(ctx, owners=r"buffered_sat_solver::BufferedSatSolver$")  # the header prints this counter; the stored clauses stay: a lowered counter under-declares them
     satlayer.rule_child_pipes(ctx)
     satlayer.rule_reply_is_stdout(ctx)
     satlayer.rule_reply_parser(ctx)
